@@ -114,71 +114,92 @@ func ksubReps(n, k int, generators [][]int) []uint {
 	return out
 }
 
-func buildTables(n int) string {
-	entries := map[string]string{}
-	gensSeen := map[string][][]int{}
-	add := func(k, m int, nb [][]int, cv bool, vb uint) {
-		perm, orbits, gens := canonAnswer(k, m, nb, cv, vb)
-		ps := "nil"
-		if perm != nil {
-			ps = joinInts(perm)
-		}
-		cvs := "0"
-		if cv {
-			cvs = "1"
-		}
-		key := fmt.Sprintf("C%d:%d:%s:%s:%d", k, m, nbrsString(nb), cvs, vb)
-		entries[key] = ps + "~" + joinInts(orbits) + "~" + gensString(gens)
-		gk := fmt.Sprintf("%d:%s", k, gensString(gens))
-		if _, ok := gensSeen[gk]; !ok {
-			gensSeen[gk] = gens
-			for kk := 2; kk <= k; kk++ {
-				reps := ksubReps(k, kk, gens)
-				rs := make([]string, len(reps))
-				for i, r := range reps {
-					rs[i] = strconv.FormatUint(uint64(r), 10)
-				}
-				entries[fmt.Sprintf("K%d:%d:%s", k, kk, gensString(gens))] = strings.Join(rs, ",")
+// vbFullK: for graphs on at most this many vertices the table holds the CheckViability = true
+// answer for every ViableBits (all subsets of 0..k-2), so that the model driver can evaluate the
+// early-exit clause of canon_spec in full (Coq: vbs_mixed in Search/OrderlyInstCheckModel.v uses
+// the same constant); above it only the sets isCanonical can ask for.
+const vbFullK = 6
+
+// tableBuilder collects the answers of the real labelling and of the real k-subset loop.
+type tableBuilder struct {
+	entries  map[string]string
+	gensSeen map[string][][]int
+}
+
+func newTableBuilder() *tableBuilder {
+	return &tableBuilder{entries: map[string]string{}, gensSeen: map[string][][]int{}}
+}
+
+func (t *tableBuilder) add(k, m int, nb [][]int, cv bool, vb uint) {
+	perm, orbits, gens := canonAnswer(k, m, nb, cv, vb)
+	ps := "nil"
+	if perm != nil {
+		ps = joinInts(perm)
+	}
+	cvs := "0"
+	if cv {
+		cvs = "1"
+	}
+	key := fmt.Sprintf("C%d:%d:%s:%s:%d", k, m, nbrsString(nb), cvs, vb)
+	t.entries[key] = ps + "~" + joinInts(orbits) + "~" + gensString(gens)
+	gk := fmt.Sprintf("%d:%s", k, gensString(gens))
+	if _, ok := t.gensSeen[gk]; !ok {
+		t.gensSeen[gk] = gens
+		for kk := 2; kk <= k; kk++ {
+			reps := ksubReps(k, kk, gens)
+			rs := make([]string, len(reps))
+			for i, r := range reps {
+				rs[i] = strconv.FormatUint(uint64(r), 10)
 			}
+			t.entries[fmt.Sprintf("K%d:%d:%s", k, kk, gensString(gens))] = strings.Join(rs, ",")
 		}
 	}
-	for k := 1; k <= n; k++ {
-		tot := uint(k * (k - 1) / 2)
-		for x := uint64(0); x < 1<<tot; x++ {
-			g := gx.FromBits(k, x)
-			nb := make([][]int, k)
-			m := 0
-			for v := 0; v < k; v++ {
-				nb[v] = []int{}
-				for u := 0; u < k; u++ {
-					if g.Edge(u, v) {
-						nb[v] = append(nb[v], u)
-					}
-				}
-				m += len(nb[v])
-			}
-			m /= 2
-			add(k, m, nb, false, 0)
-			// viable sets: non-empty subsets of {i < k-1 : deg i == deg (k-1)}
-			var cand []int
-			for i := 0; i < k-1; i++ {
-				if g.Deg(i) == g.Deg(k-1) {
-					cand = append(cand, i)
-				}
-			}
-			for s := 1; s < 1<<uint(len(cand)); s++ {
-				vb := uint(0)
-				for j, i := range cand {
-					if s>>uint(j)&1 == 1 {
-						vb |= 1 << uint(i)
-					}
-				}
-				add(k, m, nb, true, vb)
+}
+
+// addGraph tabulates everything the model and the spec checker ask about one labelled graph.
+func (t *tableBuilder) addGraph(g *gx.G) {
+	k := g.N
+	nb := make([][]int, k)
+	m := 0
+	for v := 0; v < k; v++ {
+		nb[v] = []int{}
+		for u := 0; u < k; u++ {
+			if g.Edge(u, v) {
+				nb[v] = append(nb[v], u)
 			}
 		}
+		m += len(nb[v])
 	}
-	keys := make([]string, 0, len(entries))
-	for k := range entries {
+	m /= 2
+	t.add(k, m, nb, false, 0)
+	if k <= vbFullK {
+		// spec checker (clause ok_early of canon_spec): EVERY ViableBits below 2^(k-1)
+		for vb := uint(0); vb < 1<<uint(k-1); vb++ {
+			t.add(k, m, nb, true, vb)
+		}
+		return
+	}
+	// viable sets: non-empty subsets of {i < k-1 : deg i == deg (k-1)}
+	var cand []int
+	for i := 0; i < k-1; i++ {
+		if g.Deg(i) == g.Deg(k-1) {
+			cand = append(cand, i)
+		}
+	}
+	for s := 1; s < 1<<uint(len(cand)); s++ {
+		vb := uint(0)
+		for j, i := range cand {
+			if s>>uint(j)&1 == 1 {
+				vb |= 1 << uint(i)
+			}
+		}
+		t.add(k, m, nb, true, vb)
+	}
+}
+
+func (t *tableBuilder) String() string {
+	keys := make([]string, 0, len(t.entries))
+	for k := range t.entries {
 		keys = append(keys, k)
 	}
 	sort.Strings(keys)
@@ -187,9 +208,158 @@ func buildTables(n int) string {
 		sb.WriteByte(';')
 		sb.WriteString(k)
 		sb.WriteByte('=')
-		sb.WriteString(entries[k])
+		sb.WriteString(t.entries[k])
 	}
 	return sb.String()
+}
+
+func buildTables(n int) string {
+	t := newTableBuilder()
+	for k := 1; k <= n; k++ {
+		tot := uint(k * (k - 1) / 2)
+		for x := uint64(0); x < 1<<tot; x++ {
+			g := gx.FromBits(k, x)
+			t.addGraph(&g)
+		}
+	}
+	return t.String()
+}
+
+// ---------------------------------------------------------------- sampled graphs for the spec checker
+
+// edgeString is the Edges array of the DenseGraph with the same edges (pair uv, u < v, at
+// index v(v-1)/2+u), as a string of 0/1.
+func edgeString(g *gx.G) string {
+	b := make([]byte, 0, g.N*(g.N-1)/2)
+	for v := 1; v < g.N; v++ {
+		for u := 0; u < v; u++ {
+			if g.Edge(u, v) {
+				b = append(b, '1')
+			} else {
+				b = append(b, '0')
+			}
+		}
+	}
+	return string(b)
+}
+
+func setEdge(g *gx.G, u, v int) {
+	g.Adj[u] |= 1 << uint(v)
+	g.Adj[v] |= 1 << uint(u)
+}
+
+// structured draws a graph on k vertices that is a disjoint union of small symmetric pieces
+// (complete, cycle, path, star, complete bipartite, edgeless), possibly complemented: the graphs
+// on which the automorphism part of the labelling (orbits, generators) has work to do.
+func structured(r *hx.Rng, k int) gx.G {
+	var g gx.G
+	g.N = k
+	at := 0
+	for at < k {
+		sz := r.Range(1, k-at)
+		if r.Chance(1, 2) && sz > 4 {
+			sz = r.Range(2, 4)
+		}
+		vs := make([]int, sz)
+		for i := range vs {
+			vs[i] = at + i
+		}
+		switch r.Intn(6) {
+		case 0: // complete
+			for i := 0; i < sz; i++ {
+				for j := i + 1; j < sz; j++ {
+					setEdge(&g, vs[i], vs[j])
+				}
+			}
+		case 1: // cycle
+			if sz >= 3 {
+				for i := 0; i < sz; i++ {
+					setEdge(&g, vs[i], vs[(i+1)%sz])
+				}
+			}
+		case 2: // path
+			for i := 0; i+1 < sz; i++ {
+				setEdge(&g, vs[i], vs[i+1])
+			}
+		case 3: // star
+			for i := 1; i < sz; i++ {
+				setEdge(&g, vs[0], vs[i])
+			}
+		case 4: // complete bipartite
+			a := r.Range(1, sz)
+			for i := 0; i < a; i++ {
+				for j := a; j < sz; j++ {
+					setEdge(&g, vs[i], vs[j])
+				}
+			}
+		default: // edgeless
+		}
+		at += sz
+	}
+	if r.Chance(1, 3) {
+		for u := 0; u < k; u++ {
+			for v := u + 1; v < k; v++ {
+				g.Adj[u] ^= 1 << uint(v)
+				g.Adj[v] ^= 1 << uint(u)
+			}
+		}
+	}
+	return g
+}
+
+// relabel returns h with h(i, j) = g(q[i], q[j]) (h is g relabelled by q, isoP of the Coq side).
+func relabel(g *gx.G, q []int) gx.G {
+	var h gx.G
+	h.N = g.N
+	for i := 0; i < g.N; i++ {
+		for j := i + 1; j < g.N; j++ {
+			if g.Edge(q[i], q[j]) {
+				setEdge(&h, i, j)
+			}
+		}
+	}
+	return h
+}
+
+// specCase = `spec <k> <pairs>;<table>;P<i>=<edges g>|<edges h>|<q>;...`: sampled graphs g on k
+// vertices (k above the exhaustive sizes), each with a random relabelling h; the model driver
+// evaluates the per-graph clauses of canon_spec on g and on h (extracted check_graph) and that g
+// and h get the same canonical form (label_pair_check).  maxAut bounds |Aut(g)| (the checker
+// enumerates the group by brute force).
+func specCase(r *hx.Rng, k, count int, maxAut uint64) string {
+	t := newTableBuilder()
+	var sb strings.Builder
+	seen := map[uint64]bool{}
+	n := 0
+	for tries := 0; n < count && tries < 50*count; tries++ {
+		var g gx.G
+		if r.Chance(3, 4) {
+			g = structured(r, k)
+			q0 := r.Perm(k)
+			g = relabel(&g, q0)
+		} else {
+			tot := uint(k * (k - 1) / 2)
+			dens := r.Range(1, 7)
+			var x uint64
+			for b := uint(0); b < tot; b++ {
+				if r.Intn(8) < dens {
+					x |= 1 << b
+				}
+			}
+			g = gx.FromBits(k, x)
+		}
+		if seen[g.Bits()] || gx.AutCount(&g) > maxAut {
+			continue
+		}
+		seen[g.Bits()] = true
+		q := r.Perm(k)
+		h := relabel(&g, q)
+		t.addGraph(&g)
+		t.addGraph(&h)
+		fmt.Fprintf(&sb, ";P%d=%s|%s|%s", n, edgeString(&g), edgeString(&h), joinInts(q))
+		n++
+	}
+	return fmt.Sprintf("spec %d %d%s%s", k, n, t.String(), sb.String())
 }
 
 // ---------------------------------------------------------------- the combinations
@@ -309,9 +479,19 @@ func exec(line string) hx.Result {
 	}
 	f := strings.Fields(head)
 	n, _ := strconv.Atoi(f[1])
+	if f[0] == "spec" {
+		// nothing to run on this side: the table of the case was computed by the real code in gen;
+		// the model driver prints the verdict of the extracted checker in place of `ok`
+		return hx.Result{Obs: fmt.Sprintf("spec k=%d pairs=%s | spec:ok", n, f[2]), Nontrivial: true,
+			Buckets: []string{fmt.Sprintf("spec-sample k=%d", n)}}
+	}
 	res := hx.Result{Buckets: []string{fmt.Sprintf("n=%d", n)}}
 	var pj, st strings.Builder
 	fmt.Fprintf(&pj, "cosim n=%d", n)
+	// the model driver evaluates the extracted checker of canon_spec (Search/OrderlyInstCheckModel.v,
+	// proved sound in Search/OrderlyInstCheck.v) on the table of this case, i.e. on the real answers
+	// of graph.CanonicalIsomorphAllocated and of the k-subset orbit loop, and prints its verdict here
+	pj.WriteString(" | spec:ok")
 	total := 0
 	no := func(*graph.DenseGraph) bool { return false }
 	for _, m := range moduli {
@@ -367,7 +547,17 @@ func gen(g *hx.Gen) {
 		g.Emit(fmt.Sprintf("cosim %d%s", n, buildTables(n)))
 	}
 	g.Exhaustive(fmt.Sprintf("co-simulation of the extracted model of Next with search.WithPruning for every n <= %d, every shard a < m, m in {1,2,3,4,7}, predicates none / edges>3 / maxdeg>2 / triangle as preprune, prune (and both)", nmax))
-	_ = g.Rng
+	// sampled graphs above the exhaustive sizes for the spec checker
+	if g.Thorough() {
+		for i := 0; i < 8; i++ {
+			g.Emit(specCase(g.Rng, 7, 40, 200))
+		}
+		for i := 0; i < 4; i++ {
+			g.Emit(specCase(g.Rng, 8, 12, 50))
+		}
+	} else {
+		g.Emit(specCase(g.Rng, 7, 30, 100))
+	}
 }
 
 func main() {
